@@ -109,6 +109,38 @@ func genCases(c *hc.Ctx) []tcase {
 			}
 		}
 	}
+	// ---- 1b. dense sweep: every length 65..2100 announced and followed by exactly that many bytes
+	// (the grid above covers 0..64 and the limits), all protocols, aligned or not
+	for _, kind := range c16c17.Kinds {
+		for n := 65; n <= 2100; n++ {
+			var s []byte
+			seq := int64(r.Intn(3))
+			switch kind {
+			case "abridged":
+				if n%4 != 0 {
+					continue
+				}
+				w := n / 4
+				if w < 127 {
+					s = []byte{byte(w)}
+				} else {
+					s = append([]byte{0x7f}, le32(uint32(w))[:3]...)
+				}
+				seq = 0
+			case "full":
+				s = append(le32(uint32(n)), le32(uint32(seq))...)
+				s = append(s, r.Bytes(max(n-8, 0))...)
+				cs = append(cs, tcase{kind, seq, s[:min(len(s), n)], "dense"})
+				continue
+			default:
+				s = le32(uint32(n))
+				seq = 0
+			}
+			s = append(s, r.Bytes(n)...)
+			cs = append(cs, tcase{kind, seq, s, "dense"})
+		}
+	}
+
 	// ---- 2. mutated valid streams
 	n := c.N(1500, 120000)
 	for i := 0; i < n; i++ {
